@@ -43,7 +43,7 @@ def lg_cases(draw, tier="quick"):
          # the prior object is first built with other values, its covariance materialised, then it is given its values
          "reassign_after_cov": draw(st.sampled_from([False, False, True])),
          # a vague prior: prior standard deviations times 1e4 (variances times 1e8) while the noise keeps its level
-         "vague_pow": draw(st.sampled_from([0, 0, 0, 4]))}
+         "vague_pow": draw(st.sampled_from([0, 0, 4, 4]))}
     if c["backing"] == "roll":
         # function-backed square model written with numpy functions that act along the last axis of whatever they are given
         c["m"] = m = n
@@ -181,6 +181,23 @@ def build(c):
     return BP, model, Se, Sx, mu
 
 
+def inv_ld(M):
+    """inverse by Gauss-Jordan elimination with partial pivoting in extended precision (np.longdouble): the reference for
+    ill-conditioned closed forms (vague priors), where a double-precision inverse is itself off by eps * condition number"""
+    M = np.array(M, dtype=np.longdouble)
+    n = M.shape[0]
+    aug = np.concatenate([M, np.eye(n, dtype=np.longdouble)], axis=1)
+    for col in range(n):
+        piv = col + int(np.argmax(np.abs(aug[col:, col])))
+        if piv != col:
+            aug[[col, piv]] = aug[[piv, col]]
+        aug[col] = aug[col] / aug[col, col]
+        for r in range(n):
+            if r != col:
+                aug[r] = aug[r] - aug[r, col] * aug[col]
+    return aug[:, n:]
+
+
 def effective_matrix(model):
     n = model.domain_dim
     cols = []
@@ -231,10 +248,13 @@ def run_linear(c, rec):
     BP, model, Se, Sx, mu = built
     b = A(c["data"]) * 10.0 ** c.get("scale_pow", 0)
     Aeff = effective_matrix(model)
-    Sei = np.linalg.inv(Se)
-    Lam = Aeff.T @ Sei @ Aeff + np.linalg.inv(Sx)
-    C = np.linalg.inv(Lam)
-    xstar = C @ (Aeff.T @ Sei @ b + np.linalg.inv(Sx) @ mu)
+    # (closed form evaluated in extended precision and rounded: with vague priors the information matrix has condition number 1e8+)
+    Sei_l, Sxi_l, A_l = inv_ld(Se), inv_ld(Sx), np.array(Aeff, dtype=np.longdouble)
+    Lam_l = A_l.T @ Sei_l @ A_l + Sxi_l
+    C_l = inv_ld(Lam_l)
+    xstar = np.array(C_l @ (A_l.T @ Sei_l @ np.array(b, dtype=np.longdouble) + Sxi_l @ np.array(mu, dtype=np.longdouble)), dtype=float)
+    C = np.array(C_l, dtype=float)
+    Sei = np.array(Sei_l, dtype=float)
     sd = np.sqrt(np.diag(C))
     probe = A(c["probe"])
     # ---------------- MAP
@@ -252,7 +272,7 @@ def run_linear(c, rec):
             rec.count(f"MAP_with_x0:{route}")
         rec.count(f"MAP_route:{route}")
         # (a vague prior makes the closed form ill conditioned: condition number ~ prior variance / noise variance = 1e8 costs 8 digits)
-        slack = 10.0 ** max(0, 2 * c.get("vague_pow", 0) - 6)
+        slack = 10.0 ** max(0, 2 * c.get("vague_pow", 0) - 4)
         tol = 1e-6 * slack if route == "direct" else 2e-3
         xm_arr = np.asarray(xm, dtype=float)
         require(xm_arr.shape == xstar.shape and np.max(np.abs(xm_arr - xstar) / sd) <= tol * max(1.0, np.max(np.abs(xstar) / sd)),
@@ -308,11 +328,12 @@ def run_linear(c, rec):
     require(X.shape == (n, n + 2), "direct sampling: wrong sample array shape", shape=X.shape)
     a = X[:, 0]
     Bm = X[:, 1:n + 1] - a[:, None]
-    require(np.max(np.abs(a - xstar) / sd) <= 1e-6 * max(1.0, np.max(np.abs(xstar) / sd)), "direct sampling: offset of the draws is not the closed-form posterior mean",
+    slack_s = 10.0 ** max(0, 2 * c.get("vague_pow", 0) - 4)     # (the reference closed form itself loses digits for vague priors)
+    require(np.max(np.abs(a - xstar) / sd) <= 1e-6 * slack_s * max(1.0, np.max(np.abs(xstar) / sd)), "direct sampling: offset of the draws is not the closed-form posterior mean",
             got=a, want=xstar)
     # (the covariance is read from differences of draws: round-off eps * |mean| * |B| per entry; otherwise the documented closed
     # form is accurate to working precision also for vague priors)
-    tolC = 1e-7 * float(np.max(np.abs(C))) + 1e-12 * float(np.max(np.abs(a))) * float(np.max(np.abs(Bm))) * (n + 1)
+    tolC = 1e-6 * float(np.max(np.abs(C))) + 1e-12 * float(np.max(np.abs(a))) * float(np.max(np.abs(Bm))) * (n + 1)
     require(maxdiff(Bm @ Bm.T, C) <= tolC, "direct sampling: covariance of the draws is not the closed-form posterior covariance",
             got=Bm @ Bm.T, want=C, max_err=maxdiff(Bm @ Bm.T, C), tol=tolC)
     require(maxdiff(X[:, n + 1], a + Bm @ E[n + 1]) <= 1e-8 * (float(np.max(np.abs(a))) + float(np.max(np.abs(Bm)))),
@@ -419,7 +440,7 @@ def run_bounded(c, rec):
 
 
 SUBCHECKS = [
-    SubCheck("C15/linear_gaussian", run_linear, strategy=lg_cases, n={"quick": 600, "thorough": 15000}, shards={"quick": 8, "thorough": 16}),
+    SubCheck("C15/linear_gaussian", run_linear, strategy=lg_cases, n={"quick": 2000, "thorough": 15000}, shards={"quick": 8, "thorough": 16}),
     SubCheck("C15/nonlinear_map", run_nonlinear, strategy=nl_cases, n={"quick": 120, "thorough": 3000}, shards={"quick": 8, "thorough": 16},
              shrink=False),
     SubCheck("C15/bounded_prior_map", run_bounded, strategy=bounded_cases, n={"quick": 120, "thorough": 2000}, shards={"quick": 2, "thorough": 8}, shrink=False),
